@@ -70,7 +70,8 @@ def run05(rep, tier):
         if "panic" in o:
             rep.violation("hash/panic", {"case": brief(c), "observed": o})
             continue
-        key = (c["v"], c["shape"], tuple(sorted(c["signers"])))
+        # once per signed event: the plain one and the one that carried a stale `hashes` when it was signed
+        key = (c["v"], c["shape"], tuple(sorted(c["signers"])), c["step"][0] == "prehash")
         if key in seen:
             continue
         seen.add(key)
